@@ -113,6 +113,32 @@ fn main() {
         }
     } )* } }
     absent!(Vec<u32>, [u32; 11], Option<Option<u8>>, (u8, u64), verif_harness::userty::Foo, Box<[u16]>);
+    // std items that share an item name are different types: a table holding one of them does not answer for the other,
+    // and both can be registered
+    {
+        let lookalikes = catch(|| {
+            let mut t2 = StaticTypeResolver::new();
+            t2.add_type::<std::net::SocketAddr>();
+            t2.add_type::<std::io::Error>();
+            t2
+        });
+        match lookalikes {
+            Err(e) => writeln!(ora, "property=C18 registering std::net::SocketAddr and std::io::Error in an empty table panics: {}", e).unwrap(),
+            Ok(t2) => {
+                tables += 2;
+                if let Ok(a) = catch(|| t2.type_info::<std::fmt::Error>()) {
+                    writeln!(ora, "property=C18 a table holding std::io::Error answers {}/{} for std::fmt::Error which was never registered", a.size, a.align).unwrap();
+                }
+                if let Ok(a) = catch(|| t2.type_info::<std::os::unix::net::SocketAddr>()) {
+                    writeln!(ora, "property=C18 a table holding std::net::SocketAddr answers {}/{} for std::os::unix::net::SocketAddr which was never registered", a.size, a.align).unwrap();
+                }
+                let mut t3 = t2;
+                if catch(std::panic::AssertUnwindSafe(|| { t3.add_type::<std::fmt::Error>(); })).is_err() {
+                    writeln!(ora, "property=C18 std::fmt::Error cannot be registered next to std::io::Error (same key)").unwrap();
+                }
+            }
+        }
+    }
     // registering a type twice panics
     let dup = catch(|| { let mut x = StaticTypeResolver::new(); x.add_type::<u8>(); x.add_type::<u8>(); });
     if dup.is_ok() { writeln!(ora, "property=C18 registering a type twice is accepted").unwrap(); }
